@@ -30,9 +30,17 @@ def assist(project, source, position, filename=None, debug=False):
     # the module name of an unfinished `from` import: nothing but that name
     # stands behind the keyword (`from os import(pa` is past it)
     module = line.lstrip()[5:].strip()
+    unfinished = False
     if (line.lstrip().startswith('from ') and not continued and
             ' ' not in module and '\t' not in module and '(' not in module):
-        # (on a continuation line `from` belongs to a raise or a yield)
+        # (on a continuation line `from` belongs to a raise or a yield - also
+        # inside brackets, where only the parser can tell: a text that parses
+        # holds no unfinished import)
+        try:
+            source.tree
+        except SyntaxError:
+            unfinished = True
+    if unfinished:
         iname = line.rpartition(' ')[2]
         package, sep, prefix = iname.rpartition('.')
         if sep and not package.strip('.'):
